@@ -1007,6 +1007,70 @@ pub fn gen_wall_step(prop: &str, seed: u64) -> Plan {
     Plan { prop: prop.into(), family: "L-wall-step".into(), seed, cfg, sim, clients: vec![ops], chaos: vec![], finale: if rng.chance(1, 2) { Finale::Close } else { Finale::None }, universe, tags: vec!["lockstep".into(), "under_capacity".into(), "wall_step".into(), "final_probe".into()] }
 }
 
+/// The wall clock is stepped back *while the sweep runs* (C05).  Entries with short TTLs are
+/// written at virtual time 0; for each of them the client wakes at exactly the cleanup tick that
+/// finds its bucket due and steps the wall clock back by more than the entry has been overdue -
+/// the scheduler decides whether the step lands before the sweep reads the clock, between that
+/// reading and the per-entry expiry test, or after.  Then the clock is left alone long enough
+/// for every deadline to pass again, and the physical snapshot is judged
+/// (oracle::wall_step_reclaim_rule).
+pub fn gen_wall_step_sweep(prop: &str, seed: u64) -> Plan {
+    let mut rng = Rng::new(seed ^ 0x77a2);
+    let flavor = pick_flavor_l(&mut rng);
+    let mut cfg = roomy_cfg(&mut rng, flavor);
+    cfg.cleanup_ms = *rng.pick(&[100u64, 200, 250, 500, 1000]);
+    let interval = cfg.cleanup_ms * MS;
+    let sim = sim_plan(&mut rng, false);
+    let phase_sub = sim.epoch_phase_ns % SEC;
+    let n = rng.range(1, 4) as usize;
+    let universe: Vec<u64> = (0..n as u64).map(|i| 10 + 7 * i + rng.below(5)).collect();
+    let mut ops: Vec<Op> = Vec::new();
+    let mut ttls: Vec<u64> = Vec::new();
+    for i in 0..n {
+        let d = (1 + 3 * i as u64) * SEC + rng.below(1000) * MS;
+        ttls.push(d);
+        ops.push(Op::Insert { k: universe[i], cost: 1, ttl_ns: d, size: 1 });
+    }
+    ops.push(Op::Insert { k: 9000, cost: 1, ttl_ns: 0, size: 2 });
+    ops.push(Op::Barrier);
+    let mut now = 0u64;
+    let mut back = 0u64;
+    for i in 0..n {
+        // monotonic instant at which the wall clock shows the second of this entry's bucket
+        let due = SEC * ((phase_sub + ttls[i]) / SEC + 1) - phase_sub + back;
+        let tick = (due + interval - 1) / interval * interval;
+        if tick <= now {
+            continue;
+        }
+        // sometimes one tick early or late: the step then lands outside any sweep of this bucket
+        let wake = match rng.below(8) {
+            0 => tick.saturating_sub(interval).max(now + 1),
+            1 => tick + interval,
+            _ => tick,
+        };
+        ops.push(Op::Sleep { ns: wake - now });
+        now = wake;
+        let s = 2 * SEC + interval + rng.below(2000) * MS;
+        ops.push(Op::WallStepBack { ns: s });
+        back += s;
+        if rng.chance(1, 2) {
+            ops.push(Op::Get { k: universe[i], hold: 0 });
+        }
+    }
+    ops.push(Op::Sleep { ns: back + ttls[n - 1] + 3 * SEC + 4 * interval });
+    ops.push(Op::Barrier);
+    ops.push(Op::Len);
+    for k in &universe {
+        ops.push(Op::Get { k: *k, hold: 0 });
+    }
+    ops.push(Op::Get { k: 9000, hold: 0 });
+    ops.push(Op::Wait);
+    cfg.buffer_size = cfg.buffer_size.max(n + 9);
+    let mut universe = universe;
+    universe.push(9000);
+    Plan { prop: prop.into(), family: "L-wall-step-sweep".into(), seed, cfg, sim, clients: vec![ops], chaos: vec![], finale: if rng.chance(1, 2) { Finale::Close } else { Finale::None }, universe, tags: vec!["lockstep".into(), "under_capacity".into(), "wall_step".into(), "final_probe".into()] }
+}
+
 /// TTLs beyond anything a deadline can represent (C03/C10/C20): `Duration::MAX` - which is what
 /// `get_ttl` reports for an entry without expiry, so it comes back when a caller copies an entry
 /// "with the same TTL" - and a few other values whose deadline overflows seconds-since-epoch.
@@ -1388,6 +1452,7 @@ fn gen_plan_inner(prop: &str, seed: u64, variant: u64) -> Plan {
     match prop {
         "C03" | "C10" | "C20" if variant % 40 == 11 => gen_huge_ttl(prop, seed),
         "C03" | "C04" | "C20" if variant % 40 == 23 => gen_wall_step(prop, seed),
+        "C05" if variant % 40 == 23 => gen_wall_step_sweep(prop, seed),
         "C13" | "C15" if variant % 20_000 == 3 => gen_mega(prop, seed),
         "C11" if variant % 11 == 5 => gen_clear_backlog(prop, seed),
         "C13" | "C15" if variant % 97 == 5 => gen_hot(prop, seed),
